@@ -434,10 +434,67 @@ def _h_persistence(d):
     return fn
 
 
+def single_store(g, sim, name, data, had):
+    """the single-script store of the maildir backend (pymap.filter.SingleFilterSet; its one script is called "active")
+    behind the real FilterState: PUTSCRIPT <name> that is answered OK is followed by a GETSCRIPT <name> returning the same
+    bytes; a PUTSCRIPT answered NO leaves the store as it was.  (The other clauses of the map - deleting the active
+    script, renaming - are different by design in this store and are not examined here.)  returns error|None"""
+    from pymap.filter import SingleFilterSet
+
+    class _Mem(SingleFilterSet):
+        def __init__(self):
+            self.value = b'old' if had else None
+
+        @property
+        def compiler(self):
+            raise NotImplementedError()
+
+        async def replace_active(self, value):
+            self.value = value
+
+        async def get_active(self):
+            return self.value
+    fs = _Mem()
+    cfg = sim.make_config(g)
+    st = g['FilterState'](fs, b'alice', cfg)
+    C = g['C']
+    before = fs.value
+    resp = sim.run_coro(st.run(C.PutScriptCommand(name, data)))
+    cond = resp.condition.name.encode()
+    if cond not in (b'OK', b'NO'):
+        return 'PUTSCRIPT answered %r' % cond
+    if cond == b'NO':
+        if fs.value is not before:
+            return 'PUTSCRIPT answered NO but replaced the script'
+        return None
+    got = sim.run_coro(st.run(C.GetScriptCommand(name)))
+    if not isinstance(got, g['GetScriptResponse']):
+        return 'PUTSCRIPT answered OK, GETSCRIPT of the same name does not return a script'
+    if not (len(got.script_data) == len(data) and bool(got.script_data == data)):
+        return 'GETSCRIPT does not return the bytes PUTSCRIPT stored'
+    return None
+
+
+def _h_single(n):
+    def fn(eng):
+        from pysymex import fresh_str, fresh_bytes, Outcome
+        name = fresh_str(eng, 'n', n, hi=0x7e)
+        data = fresh_bytes(eng, 'd', 2)
+        had = bool(eng.flip('had_script'))
+        wit = lambda m: {'name': name.concrete(m), 'data': bytes(data.eval(m)).hex(), 'had': had}  # noqa: E731
+        err = single_store(_g, _g['_sim'], name, data, had)
+        return Outcome(err is None, witness=wit, info=err)
+    return fn
+
+
 def harnesses(tier):
     from pysymex.runner import Harness
     q = tier == 'quick'
     hs = []
+    for n in ([1, 6] if q else [0, 1, 2, 6]):
+        hs.append(Harness('single_script_store[name_len=%d]' % n, _h_single(n),
+                          {'name_len': n, 'script_bytes': 2, 'store': 'pymap.filter.SingleFilterSet (maildir backend)'},
+                          replay='single', task_budget=30))
     for d in ([3] if q else [3, 4]):
         hs.append(Harness('map_across_connections[ops=%d]' % d, _h_persistence(d),
                           {'operations_on_connection_A': d, 'ops': [o if isinstance(o, str) else o.decode() for o in PERSIST_OPS],
@@ -464,6 +521,9 @@ def replay(harness, w):
     from pymap.user import UserMetadata
     g.update(locals())
     bad = []
+    if harness == 'single':
+        err = single_store(g, _sim, ''.join(chr(c) for c in w['name']), bytes.fromhex(w['data']), w['had'])
+        return {'violates': err is not None, 'detail': err, 'category': 'single-script store: ' + (err or '')}
     if harness == 'persist':
         err = persistence(g, _sim, _conn, [o if o in ('other-connection', 'relogin') else o.encode() for o in w['ops']],
                           w.get('empty_start', False))
